@@ -52,6 +52,37 @@ struct Tagged {
   int tag;
 };
 
+// mc::cover() from several threads: the engine compares/copies the name with strncmp/strncpy, which TSan
+// intercepts even though the engine itself is uninstrumented, and reports as a race on the engine's own
+// table. The accesses are harness mechanics, so they are excluded like block_until predicates are.
+inline void cover(const char* name) {
+  mc::TsanIgnore ig;
+  mc::cover(name);
+}
+
+// A parameter value "x|y|z" is a data choice explored exhaustively inside the run (mc::choose, cost 0): it folds
+// several cheap configurations into one process. The pick is part of the outcome digest and of the verbose log.
+inline std::string alt(const mc::Params& P, const char* key, const char* def) {
+  std::string v = P.s(key, def);
+  if (v.find('|') == std::string::npos) return v;
+  std::vector<std::string> parts;
+  size_t from = 0;
+  for (;;) {
+    size_t bar = v.find('|', from);
+    parts.push_back(v.substr(from, bar == std::string::npos ? bar : bar - from));
+    if (bar == std::string::npos) break;
+    from = bar + 1;
+  }
+  int i = mc::choose((int)parts.size());
+  mc::observe(key, i);
+  mc_log("   [config %s=%s]\n", key, parts[(size_t)i].c_str());
+  return parts[(size_t)i];
+}
+inline long alt_num(const mc::Params& P, const char* key, long def) {
+  if (!P.has(key)) return def;
+  return atol(alt(P, key, "0").c_str());
+}
+
 // Every thread's first use of a small-buffer size class fills its thread-local cache (several hundred
 // stores). Doing that up front, while no other thread is schedulable, keeps those steps out of the part of
 // the execution where they would each be a preemption point.
@@ -69,8 +100,12 @@ inline void warm_small_buffers() {
 //    thread-local destructor (~1000 atomic operations). Helpers therefore stay parked after their work and
 //    are let go one at a time by finish(), when nothing else is running, instead of interleaving that
 //    bookkeeping with the operations under test.
+//  * publication: open() is a release and the helper's wake-up an acquire on a real (unscheduled) atomic, as
+//    any program handing a Future to another thread would have; likewise work-done -> wait_done(). Without
+//    them TSan would (rightly) report the harness, since mc::Shared is relaxed.
 struct Gate {
   mc::Shared<int> parked{0}, open_{0}, done{0}, exit_turn{0};
+  mc::real_atomic<int> pub_{0}, done_pub_{0};
   int started = 0;
   template <class F>
   void spawn(F f) {
@@ -79,16 +114,22 @@ struct Gate {
       warm_small_buffers();
       parked.add(1);
       mc::block_until([&] { return open_.get() != 0; });
+      (void)pub_.load(std::memory_order_acquire);
       f();
+      done_pub_.fetch_add(1, std::memory_order_release);
       done.add(1);
       mc::block_until([&] { return exit_turn.get() >= want; });
     });
     mc::block_until([&] { return parked.get() >= want; });
   }
-  void open() { open_.set(1); }
+  void open() {
+    pub_.store(1, std::memory_order_release);
+    open_.set(1);
+  }
   // wait until every helper has finished its work (a helper that cannot is reported as a deadlock)
   void wait_done() {
     mc::block_until([&] { return done.get() >= started; });
+    (void)done_pub_.load(std::memory_order_acquire);
   }
   // let the helpers exit one after the other (mc::join_all() afterwards)
   void finish() {
@@ -234,7 +275,7 @@ void get_program(GetCtx& c, dispenso::Future<typename K::R>& h, const dispenso::
         }
         if (c.ran_in_timed.get()) {
           MC_CHECK(deferred, "wait_for ran the functor of a future created without std::launch::deferred");
-          mc::cover("timed_wait_ran_functor");
+          cover("timed_wait_ran_functor");
         }
         break;
       }
@@ -245,7 +286,7 @@ void get_program(GetCtx& c, dispenso::Future<typename K::R>& h, const dispenso::
         t_in_timed_wait = 0;
         if (c.ran_in_timed.get()) {
           MC_CHECK(deferred, "wait_until ran the functor of a future created without std::launch::deferred");
-          mc::cover("timed_wait_ran_functor");
+          cover("timed_wait_ran_functor");
         }
         if (st == std::future_status::ready) {
           MC_CHECK(c.finished.get() == 1, "wait_until(now) reported ready before the functor finished");
@@ -260,7 +301,7 @@ void get_program(GetCtx& c, dispenso::Future<typename K::R>& h, const dispenso::
         if (h.valid()) extra.push_back(h);
         break;
       case 'x':
-        h = orig;
+        if (orig.valid()) h = orig; // (never used together with drop=1)
         break;
       case 'd':
         h = Fut();
@@ -287,8 +328,16 @@ void fget_impl(const mc::Params& P) {
   typedef typename K::R R;
   typedef dispenso::Future<R> Fut;
   std::string sched = P.s("sched", "pool");
-  long n = P("n", 1), pol = P("pol", 2);
+  long n = P("n", 1), pol = alt_num(P, "pol", 2);
   std::string pa = P.s("a", "g"), pb = P.s("b", "cw"), pc = P.s("c", "d");
+  if (P.has("abc")) { // the three programs as one parameter "a.b.c", so that alternatives are picked jointly
+    std::string abc = alt(P, "abc", "g.cw.d");
+    size_t d1 = abc.find('.'), d2 = abc.find('.', d1 + 1);
+    MC_CHECK(d1 != std::string::npos && d2 != std::string::npos, "harness: abc must be a.b.c");
+    pa = abc.substr(0, d1);
+    pb = abc.substr(d1 + 1, d2 - d1 - 1);
+    pc = abc.substr(d2 + 1);
+  }
   bool deferred = (pol & 2) != 0;
   GetCtx c;
   c.creator = mc_self_id();
@@ -299,12 +348,15 @@ void fget_impl(const mc::Params& P) {
     std::unique_ptr<dispenso::TaskSet> ts;
     std::unique_ptr<dispenso::ConcurrentTaskSet> cts;
     ManualInvoker manual;
-    Fut orig, forc;
+    Fut orig, forb, forc;
     Gate gate;
+    // drop=1: T0 gives B and C their own handles, runs its program and then drops the original while B, C and
+    // whoever runs the functor may still be at work: the last reference can be released by any of them.
+    bool drop = P("drop", 0) != 0;
     // B, C and the manual completer exist before the pool does, parked at model level: the pool's
     // start-up is then explored with one runnable harness thread instead of three.
     if (pb != "-") gate.spawn([&] {
-      Fut mine(orig); // B copies the handle A is using
+      Fut mine = drop ? Fut(std::move(forb)) : Fut(orig); // B copies the handle A is using (drop=0)
       get_program<K>(c, mine, orig, pb, deferred);
     });
     if (pc != "-") gate.spawn([&] {
@@ -320,7 +372,7 @@ void fget_impl(const mc::Params& P) {
     // sleeper, push to its steal ring, wake it). park=0: the workers are still starting up (central queue).
     if (pool && n > 0 && P("park", 1)) {
       usleep(50000);
-      mc::cover("pool_parked");
+      cover("pool_parked");
     }
     if (sched == "pool")
       orig = Fut(mk(), *pool, apol_of(pol), dpol_of(pol));
@@ -340,6 +392,7 @@ void fget_impl(const mc::Params& P) {
       mc::fail("harness: unknown sched");
     MC_CHECK(orig.valid(), "a constructed Future is not valid()");
     if (pc != "-") forc = orig;
+    if (pb != "-" && drop) forb = orig;
 
     gate.open(); // B, C and the completer were parked (not schedulable) while the pool started
     {
@@ -348,6 +401,23 @@ void fget_impl(const mc::Params& P) {
       for (char op : pa)
         if (strchr("gwzur", op)) prog.push_back(op); // A never mutates the handle B copies from
       get_program<K>(c, mine, orig, prog, deferred);
+    }
+    if (drop) {
+      orig = Fut();
+      gate.wait_done();
+      if (ts) ts->wait();
+      if (cts) cts->wait();
+      ts.reset();
+      cts.reset();
+      pool.reset();
+      if (sched == "nt") drain_new_threads();
+      if (sched == "man") mc::block_until([&] { return manual.has.get() == 0; });
+      MC_CHECK(c.calls.get() == 1, "the functor ran %d times although every handle was dropped only after scheduling", c.calls.get());
+      cover("all_handles_dropped");
+      mc::observe("runner", c.runner.get());
+      gate.finish();
+      mc::join_all();
+      return; // a result that was never destroyed is reported by the lifetime registry when the body returns
     }
     gate.wait_done();
     if (ts) {
@@ -369,7 +439,7 @@ void fget_impl(const mc::Params& P) {
     MC_CHECK(refs_of(orig) == 1, "reference count is %d at quiescence with exactly one live handle", refs_of(orig));
     K::check_get(c, orig);
     int rn = c.runner.get();
-    mc::cover(rn == c.creator ? "ran_on_T0" : "ran_elsewhere");
+    cover(rn == c.creator ? "ran_on_T0" : "ran_elsewhere");
     mc::observe("runner", rn);
     mc::observe("gets", c.gets.get());
     gate.finish();
@@ -415,9 +485,9 @@ struct ThenCtx {
     runner[id].set(mc_self_id());
     // where it runs: inside the registering then() call (found ready at once, or pushed its link and then
     // drained the chain itself after the re-check), or on whoever completed the antecedent / a pool thread
-    if (t_in_then == 1) mc::cover("then_inline_late_ready");
-    if (t_in_then == 2) mc::cover("then_inline_ready_before");
-    if (t_in_then == 0) mc::cover("cont_not_in_then");
+    if (t_in_then == 1) cover("then_inline_late_ready");
+    if (t_in_then == 2) cover("then_inline_ready_before");
+    if (t_in_then == 0) cover("cont_not_in_then");
     MC_CHECK(a.valid(), "continuation %d received an invalid future", id);
     MC_CHECK(a.is_ready(), "continuation %d started while its antecedent is not ready", id);
     MC_CHECK(ante_finished.get() == 1, "continuation %d started before the antecedent's functor finished", id);
@@ -483,7 +553,7 @@ void use_then_future(ThenCtx& c, dispenso::Future<int>& r, int id, char use, boo
     int v = r.get();
     MC_CHECK(c.done[id].get() == 1, "get() on then-future %d returned before its continuation finished", id);
     MC_CHECK(v == 100 + id, "then-future %d holds %d", id, v);
-    mc::cover("then_get");
+    cover("then_get");
   } else {
     mc::block_until([&] { return c.done[id].get() == 1; }); // nobody pulls: the chain itself must deliver
     mc::block_until([&] { return status_of(r) == 2; });
@@ -494,14 +564,14 @@ void use_then_future(ThenCtx& c, dispenso::Future<int>& r, int id, char use, boo
 void fthen_impl(const mc::Params& P) {
   std::string comp = P.s("comp", "man");
   long n = P("n", 1), nb = P("b", 1), nc = P("c", 0);
-  std::string use = P.s("use", "b");
+  std::string use = alt(P, "use", "b");
   bool chain = P("chain", 0) != 0;
   warm_small_buffers();
   ThenCtx c;
-  c.ante_throws = P.s("akind", "val") == "thr";
+  c.ante_throws = alt(P, "akind", "val") == "thr";
   ThenEnv env;
-  env.tsched = P.s("ts", "imm");
-  env.pol = P("pol", 2);
+  env.tsched = alt(P, "ts", "imm");
+  env.pol = alt_num(P, "pol", 2);
   bool deferred = (env.pol & 2) != 0;
   bool used_nt = env.tsched == "nt";
   {
@@ -552,11 +622,11 @@ void fthen_impl(const mc::Params& P) {
       int last = chain ? 2 : 0;
       int v = held[chain ? (size_t)nb : 0].get();
       MC_CHECK(v == 100 + last, "get() through an unstarted chain returned %d", v);
-      mc::cover("pulled_through");
+      cover("pulled_through");
     }
     if (env.ts) {
       env.ts->wait();
-      mc::cover("taskset_wait");
+      cover("taskset_wait");
       for (size_t k = 0; k < held.size(); k++) MC_CHECK(held[k].is_ready(), "TaskSet::wait() returned but then-future %zu (registered with the set) is not ready", k);
     }
     for (int k = 0; k < nb; k++) use_then_future(c, held[(size_t)k], k, use[0], deferred);
@@ -564,7 +634,7 @@ void fthen_impl(const mc::Params& P) {
     gate.wait_done();
     if (env.cts) {
       env.cts->wait();
-      mc::cover("taskset_wait");
+      cover("taskset_wait");
       for (size_t k = 0; k < held.size(); k++) MC_CHECK(held[k].is_ready(), "ConcurrentTaskSet::wait() returned but then-future %zu is not ready", k);
     }
     ante.wait();
@@ -680,8 +750,8 @@ template <class Res, class Make, class Check>
 void fwhen_run(const mc::Params& P, WhenCtx& c, Make make, Check check) {
   std::string in = P.s("in", "mm");
   if (in == "-") in = "";
-  std::string ord = P.s("ord", "");
-  std::string set = P.s("set", "none"), use = P.s("use", "g");
+  std::string ord = alt(P, "ord", "");
+  std::string set = alt(P, "set", "none"), use = alt(P, "use", "g");
   long n = P("n", 1);
   bool split = P("split", 0) != 0, obs = P("obs", 0) != 0, strict = P("strict", 0) != 0;
   c.k = (int)in.size();
@@ -713,7 +783,7 @@ void fwhen_run(const mc::Params& P, WhenCtx& c, Make make, Check check) {
     if (obs) ogate.spawn([&] {
       if (res_obs.is_ready()) {
         check(res_obs, "observer");
-        mc::cover("observer_saw_ready");
+        cover("observer_saw_ready");
       }
       res_obs = Res();
     });
@@ -758,14 +828,14 @@ void fwhen_run(const mc::Params& P, WhenCtx& c, Make make, Check check) {
     if (use == "w" && env.ts) {
       env.ts->wait();
       MC_CHECK(res.is_ready(), "TaskSet::wait() returned but the combinator's result is not ready");
-      mc::cover("taskset_wait_first");
+      cover("taskset_wait_first");
     } else if (use == "w" && env.cts) {
       env.cts->wait();
       MC_CHECK(res.is_ready(), "ConcurrentTaskSet::wait() returned but the combinator's result is not ready");
-      mc::cover("taskset_wait_first");
+      cover("taskset_wait_first");
     } else if (use == "b") {
       mc::block_until([&] { return status_of(res) == 2; });
-      mc::cover("delivered_by_callbacks");
+      cover("delivered_by_callbacks");
     }
     check(res, "T0");
     gate.wait_done();
@@ -784,7 +854,7 @@ void fwhen_run(const mc::Params& P, WhenCtx& c, Make make, Check check) {
     check(res, "T0 at quiescence");
     int rc = refs_of(res);
     if (rc != 1) {
-      mc::cover("result_refcount_off");
+      cover("result_refcount_off");
       mc::observe("refcount", rc);
       if (strict) MC_CHECK(false, "combinator result: reference count %d at quiescence with exactly one live handle (its state is never freed)", rc);
     }
@@ -841,7 +911,7 @@ void fwhen_all_tup<3>(const mc::Params& P, WhenCtx& c) {
 }
 
 void fwhen_impl(const mc::Params& P) {
-  std::string op = P.s("op", "all"), form = P.s("form", "it"), in = P.s("in", "mm");
+  std::string op = alt(P, "op", "all"), form = alt(P, "form", "it"), in = P.s("in", "mm");
   if (in == "-") in = "";
   size_t k = in.size();
   WhenCtx c;
@@ -912,6 +982,28 @@ void fwhen_impl(const mc::Params& P) {
 // advance it by 10 us and return now_ns()+1 s. A timed futex wait expires by jumping the clock to its deadline.
 constexpr int64_t kEpochNs = 1000000000LL;
 
+// d=all / api=all: the value is a data choice explored exhaustively inside one run (mc::choose, cost 0)
+const int64_t kDurations[] = {-5, 0, 300, 999999, 1000000, 2000000000LL}; // 999999 ns: a value whose conversion to
+                                                                          // timespec in waitFor() drops a nanosecond
+int64_t pick_duration(const mc::Params& P, const char* key, int64_t def) {
+  if (P.s(key, "") == "all") {
+    int64_t d = kDurations[mc::choose(6)];
+    mc::observe(key, (long)(d % 1000003));
+    return d;
+  }
+  if (!P.has(key)) return def;
+  return (int64_t)atoll(alt(P, key, "0").c_str());
+}
+std::string pick_api(const mc::Params& P, const char* const* names, int n) {
+  std::string a = P.s("api", names[0]);
+  if (a == "all") {
+    int k = mc::choose(n);
+    mc::observe("api", k);
+    return names[k];
+  }
+  return a;
+}
+
 template <class Rep, class Per>
 int64_t as_ns(std::chrono::duration<Rep, Per> d) {
   return std::chrono::duration_cast<std::chrono::nanoseconds>(d).count();
@@ -940,13 +1032,13 @@ bool timed_wait_event(const dispenso::CompletionEvent& ev, const std::string& ap
   if (r) {
     MC_CHECK(complete && notified.get() == 1, "timed wait returned true but the event is not completed");
     MC_CHECK(ev.completed(), "completed() false after a timed wait returned true");
-    mc::cover("ev_true");
+    cover("ev_true");
   } else {
     if (api == "for" || api == "fors")
       MC_CHECK(t1 - t0 >= d, "waitFor(%lld ns) returned false after only %lld ns", (long long)d, (long long)(t1 - t0));
     else
       MC_CHECK(t1 + kEpochNs >= abs_ns, "waitUntil returned false %lld ns before the requested time point", (long long)(abs_ns - t1 - kEpochNs));
-    mc::cover(complete ? "ev_false_but_completed_now" : "ev_false");
+    cover(complete ? "ev_false_but_completed_now" : "ev_false");
   }
   mc::observe("ret", r ? 1 : 0);
   return r;
@@ -955,8 +1047,9 @@ bool timed_wait_event(const dispenso::CompletionEvent& ev, const std::string& ap
 // params: api (for|fors|until|untilsys), d (ns, may be negative), d1 (second waiter's duration; absent = one
 // waiter), notif: before | during | never
 void cev_timed_impl(const mc::Params& P) {
-  std::string api = P.s("api", "for"), notif = P.s("notif", "during");
-  int64_t d = P("d", 1000000);
+  static const char* const apis[] = {"for", "fors", "until", "untilsys"};
+  std::string api = pick_api(P, apis, 4), notif = alt(P, "notif", "during");
+  int64_t d = pick_duration(P, "d", 1000000);
   dispenso::CompletionEvent ev;
   mc::Shared<int> notified{0};
   if (notif == "before") {
@@ -964,7 +1057,7 @@ void cev_timed_impl(const mc::Params& P) {
     ev.notify();
   }
   if (P.has("d1")) {
-    int64_t d1 = P("d1", 0);
+    int64_t d1 = pick_duration(P, "d1", 0);
     mc::spawn([&, d1] { timed_wait_event(ev, api, d1, notified); });
   }
   if (notif == "during") mc::spawn([&] {
@@ -1018,26 +1111,27 @@ void timed_wait_future(TimedCtx& c, const dispenso::Future<int>& f, const std::s
     MC_CHECK(ready_now && c.finished.get() == 1, "timed wait reported ready but the functor has not finished");
     MC_CHECK(f.is_ready(), "is_ready() false after a timed wait reported ready");
     MC_CHECK(f.get() == 41, "wrong value after a timed wait reported ready");
-    mc::cover("fut_ready");
+    cover("fut_ready");
   } else {
     if (api == "for")
       MC_CHECK(t1 - t0 >= d, "wait_for(%lld ns) reported timeout after only %lld ns", (long long)d, (long long)(t1 - t0));
     else
       MC_CHECK(t1 + kEpochNs >= abs_ns, "wait_until reported timeout %lld ns before the requested time point", (long long)(abs_ns - t1 - kEpochNs));
-    mc::cover(ready_now ? "fut_timeout_but_ready_now" : "fut_timeout");
+    cover(ready_now ? "fut_timeout_but_ready_now" : "fut_timeout");
   }
   if (!started_before && c.ran_in_timed.get() != 0) {
     // some timed wait ran the functor on its own thread
     MC_CHECK(deferred, "a timed wait ran the not-yet-started functor although the future was created without std::launch::deferred");
-    mc::cover("timed_wait_ran_functor");
+    cover("timed_wait_ran_functor");
   }
   mc::observe("status", (long)st);
 }
 
 void fut_timed_impl(const mc::Params& P) {
-  std::string sched = P.s("sched", "man"), ctor = P.s("ctor", "ctor"), api = P.s("api", "for"), when = P.s("when", "during");
-  long pol = P("pol", 2), n = P("n", 1);
-  int64_t d = P("d", 1000000);
+  static const char* const apis[] = {"for", "until"};
+  std::string sched = P.s("sched", "man"), ctor = P.s("ctor", "ctor"), api = pick_api(P, apis, 2), when = alt(P, "when", "during");
+  long pol = alt_num(P, "pol", 2), n = P("n", 1);
+  int64_t d = pick_duration(P, "d", 1000000);
   bool w2 = P("w2", 0) != 0;
   bool deferred = (pol & 2) != 0;
   TimedCtx c;
@@ -1078,7 +1172,7 @@ void fut_timed_impl(const mc::Params& P) {
         f = dispenso::async(dispenso::kNewThreadInvoker, both, mk());
       else
         mc::fail("harness: ctor=fn needs sched=pool|nt");
-      mc::cover("made_by_async_fn");
+      cover("made_by_async_fn");
     } else if (sched == "man")
       f = dispenso::Future<int>(mk(), manual, apol_of(pol), dpol_of(pol));
     else if (sched == "pool")
@@ -1107,7 +1201,7 @@ void fut_timed_impl(const mc::Params& P) {
 } // namespace
 
 MC_HARNESS(fget) {
-  std::string kind = P.s("kind", "val");
+  std::string kind = alt(P, "kind", "val");
   if (kind == "val")
     fget_impl<ValKind>(P);
   else if (kind == "ref")
